@@ -38,6 +38,17 @@ def holds_objects(t):
     return False
 
 
+def may_hold_objects(t):
+    """container whose elements are not provably immutable scalars (free-form dictionaries such as extras
+    can reference nodes / attackers of the graph)."""
+    SC = ('str', 'int', 'float', 'bool', 'none')
+    if t[0] in ('list', 'set'):
+        return t[1][0] not in SC
+    if t[0] == 'dict':
+        return t[2][0] not in SC
+    return False
+
+
 def scalar_elems(t):
     return t[0] in ('list', 'set') and t[1][0] in ('str', 'int', 'float', 'bool')
 
@@ -250,6 +261,14 @@ def run(ctx) -> list[Inst]:
                             RULE, f.short, construct, 'violation',
                             msg=(f"'{stmt_text(val[0])}' copies a container of graph objects without the memo: "
                                  f"the copy refers to duplicates instead of the copied nodes/attackers"),
+                            file=rel, line=line, props=props))
+                    elif may_hold_objects(t) and not has_memo:
+                        insts.append(Inst(
+                            RULE, f.short, construct, 'violation',
+                            msg=(f"'{stmt_text(val[0], 80)}' deep-copies free-form content without the memo of the "
+                                 f"enclosing copy: a node / attacker referenced from {F} is duplicated into an "
+                                 f"orphan instead of being mapped to its copy in the copied graph (internal "
+                                 f"references leave the copy)"),
                             file=rel, line=line, props=props))
                     else:
                         insts.append(Inst(RULE, f.short, construct, 'ok', msg='deep copy', file=rel,
